@@ -78,6 +78,35 @@ theorem below_limit_no_deep (n : Node) (s : St) (r : Res)
     (evalTop env n s).2.hit = false :=
   (C01.eval_returns_denotation env inp n s r hg h0 hd).1
 
+/-! ### Where `None` is "not allowed": the `allow_none` look-up chain
+
+`CellsImpl._store_value` fails with `NoneReturnedError` when the formula returned `None` and
+`get_property("allow_none")` is false.  The setting is looked up cells → space → model and the
+nearest one that is set decides – in particular an explicit `False` on a cells is not
+overridden by a `True` further up, and nothing set below the model means the model's. -/
+
+theorem allow_none_own_setting_decides (b : Bool) (space : Option Bool) (model : Bool) :
+    resolveAllowNone (some b) space model = b := rfl
+
+theorem allow_none_space_decides_when_cells_unset (b : Bool) (model : Bool) :
+    resolveAllowNone none (some b) model = b := rfl
+
+theorem allow_none_model_decides_when_unset_below (model : Bool) :
+    resolveAllowNone none none model = model := rfl
+
+/-- the look-up never answers "allowed" unless some level says so -/
+theorem allow_none_only_if_some_level_allows (cell space : Option Bool) (model : Bool)
+    (h : resolveAllowNone cell space model = true) : cell = some true ∨ space = some true ∨ model = true := by
+  cases cell with
+  | some b => left; simpa [resolveAllowNone] using h
+  | none =>
+    cases space with
+    | some b => right; left; simpa [resolveAllowNone] using h
+    | none => right; right; simpa [resolveAllowNone] using h
+
+example : resolveAllowNone (some false) (some true) true = false := by decide
+example : resolveAllowNone none (some false) true = false := by decide
+
 /-! Non-vacuity: a concrete failure three frames deep (the element called, a callee that
 catches nothing, a raise) from the empty state: quiescent afterwards, nothing held, the
 error is the original `ValueError`, and a later call of the healthy element works. -/
